@@ -4206,6 +4206,8 @@ def job_primitive_choice(chk):
                 prim, conv = s._get_primitive_converter(method)
             replay = {"part": "job-choice"}
             chk.case(("J0", tuple(avail), method), nontrivial=len(avail) >= 2)
+            if prim is None:
+                chk.branch("job-no-primitive")
             # direct oracle: an offered command, the method itself when offered, and the converter that goes with it
             name = None if conv is None else conv.__name__
             ok = (prim is None and not avail) or (prim in avail and (method not in avail or prim == method)
@@ -4496,7 +4498,7 @@ def run(chk: core.Check):
         "job-samples-via-samples", "job-samples-via-probs", "job-sample_count-via-samples",
         "job-sample_count-via-probs", "job-probs-via-samples", "job-probs-via-probs", "job-iterated",
         "job-iterated-conversion-own-limits", "job-keyword-max_samples", "job-surplus-positional",
-        "job-conversion-under-max_shots_per_call", "job-no-primitive", "job-primitive-choice-only",
+        "job-conversion-under-max_shots_per_call", "job-no-primitive",
         "job-primitive-choice-exhaustive",
         "job-raise:RuntimeError", "job-raise:IndexError", "job-raise:AttributeError",
     ]
